@@ -44,10 +44,48 @@ class Case:
             s.context.instances[ident]._state = SupvisorsInstanceStates.RUNNING if self.running[i] else SupvisorsInstanceStates.STOPPED
         # recording sinks
         self.emitted = []
-        s.rpc_handler.send_start_process = lambda ident, namespec, extra: self.emitted.append(f"start:{self.pidx[namespec]}>{self.ids.index(ident)}")
+        # which ApplicationStartJobs object (creation rank) and which requested strategy a start request belongs to
+        from supvisors.commander import ApplicationStartJobs
+        case = self; self.job_count = 0; self.cur = []
+        class TaggedJobs(ApplicationStartJobs):
+            def __init__(jself, *a, **k):
+                super().__init__(*a, **k); jself._verif_id = case.job_count; case.job_count += 1
+            def process_job(jself, command):
+                case.cur.append((jself._verif_id, command.strategy.value))
+                queued = False
+                try:
+                    queued = super().process_job(command)
+                    return queued
+                finally:
+                    case.cur.pop()
+                    # known finding C10:start-request-untracked: a re-entrant Commander.next dropped this job while its
+                    # group is still being processed, and it goes on sending requests; what follows is the behaviour of a
+                    # corrupted Starter and is not compared any further (the case ends after this operation)
+                    if queued and case.s.starter.current_jobs.get(jself.application_name) is not jself: case.orphaned = True
+            def check(jself):
+                case.check_job = jself._verif_id
+                try: return super().check()
+                finally: case.check_job = 999
+        self.check_job = 999; self.orphaned = False
+        s.starter.job_class = TaggedJobs
+        from supvisors.commander import ApplicationStopJobs
+        class TaggedStopJobs(ApplicationStopJobs):
+            def process_job(jself, command):
+                queued = False
+                try:
+                    queued = super().process_job(command)
+                    return queued
+                finally:
+                    if queued and case.s.stopper.current_jobs.get(jself.application_name) is not jself: case.orphaned = True
+        s.stopper.job_class = TaggedStopJobs
+        def rec_start(ident, namespec, extra):
+            k, st = self.cur[-1] if self.cur else (-1, -1)
+            self.emitted.append(f"start:{self.pidx[namespec]}>{self.ids.index(ident)}@{k}/{st}")
+        s.rpc_handler.send_start_process = rec_start
         orig_force = s.listener.force_process_state
         def force(process, identifier, event_time, forced_state, reason):
-            self.emitted.append(f"force:{self.pidx[process.namespec]}:{int(forced_state)}:{1 if reason == 'No resource available' else 0}")
+            k = self.cur[-1][0] if self.cur else self.check_job
+            self.emitted.append(f"force:{self.pidx[process.namespec]}:{int(forced_state)}:{1 if reason == 'No resource available' else 0}@{k}")
             orig_force(process, identifier, event_time, forced_state, reason)
         s.listener.force_process_state = force
         s.rpc_handler.send_process_state_event = lambda payload: None
@@ -122,7 +160,8 @@ class Case:
 
     def observe(self):
         e = self.emitted; self.emitted = []
-        return f"out=[{','.join(e)}] starting={'true' if self.s.starter.in_progress() else 'false'} stopping={'true' if self.s.stopper.in_progress() else 'false'}"
+        return (f"out=[{','.join(e)}] starting={'true' if self.s.starter.in_progress() else 'false'}"
+                f" stopping={'true' if self.s.stopper.in_progress() else 'false'}" + (' orphan=1' if self.orphaned else ''))
 
     def record(self, op):
         self.lines.append(f"op {T[0]} {op}"); self.obs.append(self.observe())
@@ -136,6 +175,7 @@ class Case:
         to_start = apps[:]
         scripts = {}
         for step in range(steps):
+            if self.orphaned: break
             T[0] += rnd.randint(1, 3 * UNIT)
             r = rnd.random()
             if to_start and r < 0.35:
@@ -204,10 +244,115 @@ def run_cases(chk, seeds):
         diff = None; verdicts = []
         for k in range(a, b):
             parts = [x.strip() for x in model[k].split('|')]
-            if diff is None and obs[k] != parts[0]:
+            if diff is None and obs[k].replace(' orphan=1', '') != parts[0]:
                 diff = {'line': k - a, 'op': lines[k].split('|')[0].strip(), 'impl': obs[k], 'model': parts[0]}
             if len(parts) > 1 and parts[1] != 'J:ok':
                 for v in parts[1][2:].split(';'): verdicts.append((k - a, v, lines[k].split('|')[0].strip()))
         res.append({'seed': seed, 'lines': [l.split('|')[0].strip() for l in lines[a:b]], 'obs': obs[a:b], 'diff': diff,
                     'verdicts': verdicts, 'exc': exc, 'case': c})
     return res
+
+
+# ---------------------------------------------------------------------------------------------------------------
+RULES = {
+    'C03': ('at least two start requests of one application in different sequence groups and one failure, time-out or '
+            'no-resource', lambda outs: _groups(outs, 'start') and any('force:' in o for o in outs)),
+    'C04': ('at least two start requests and one refusal for lack of resource, or three start requests on a cluster of >= 2 '
+            'instances', lambda outs: (sum(o.count('start:') for o in outs) >= 2 and any(':200:1@' in o for o in outs))
+            or sum(o.count('start:') for o in outs) >= 3),
+    'C09': ('at least two stop requests emitted by different operations (two stop groups)', lambda outs: sum(1 for o in outs if 'stop:' in o) >= 2),
+    'C10': ('at least one request given up on time-out (forced state emitted by a periodic check)',
+            lambda outs: any(':0@' in o and 'force:' in o for o in outs)),
+    'C14': ('at least two start requests placed with a load-sensitive strategy', lambda outs: sum(
+        1 for o in outs for x in o.split(',') if 'start:' in x and x.rsplit('/', 1)[-1].rstrip(']').split()[0] not in ('0', '3')) >= 2),
+}
+
+
+def _groups(outs, kind):
+    return sum(1 for o in outs if f'{kind}:' in o) >= 2
+
+
+def commander_check(chk, module, prefixes, quick_cases=1500, thorough_cases=30000, search_cases=6000):
+    """ common body of the commander-level checks (C03 C04 C09 C10 C14) """
+    from core import derive_seeds
+    prop = chk.prop
+    chk.regen(['constants', 'supervisor.states', 'enum:StartingStrategies', 'enum:StartingFailureStrategies', 'ast:is_loading_valid',
+               'enum:ProcessRequestResult'])
+    chk.prove(module, extra_targets=['drv_cmd'])
+    if chk.tier == 'thorough': chk.leanchecker([module])
+    n = quick_cases if chk.tier == 'quick' else thorough_cases
+    rule_text, rule = RULES[prop]
+    stats = {'evaluations': 0, 'lines': 0, 'nontrivial': set(), 'ops': {}, 'emitted': {'start': 0, 'stop': 0, 'force': 0},
+             'impl_exceptions': {}, 'orphan_cases': 0}
+    samples = []
+
+    def batch(seeds):
+        for r in run_cases(chk, seeds):
+            stats['evaluations'] += 1; stats['lines'] += len(r['lines'])
+            outs = [o.split(' starting=')[0] for o in r['obs']]
+            for o in outs:
+                for k in stats['emitted']: stats['emitted'][k] += o.count(k + ':')
+            for l in r['lines']:
+                if l.startswith('op '): k = l.split()[2]; stats['ops'][k] = stats['ops'].get(k, 0) + 1
+            if rule(outs): stats['nontrivial'].add(r['seed'])
+            if r['case'].orphaned: stats['orphan_cases'] += 1
+            if not samples and rule(outs):
+                samples.append({'case_seed': r['seed'], 'configuration': [l for l in r['lines'] if not l.startswith('op')],
+                                'operations': [f'{l}  ->  {o}' for l, o in zip(r['lines'], r['obs']) if l.startswith('op') and ' info ' not in l][:14]})
+            base = {'case_seed': r['seed'], 'how': f'./check {prop} --replay <this file> regenerates the case from case_seed'}
+            if r['exc']:
+                cls = r['exc'][0]
+                stats['impl_exceptions'][cls] = stats['impl_exceptions'].get(cls, 0) + 1
+                sig = f"{prop}:{'hang' if cls == 'Hang' else 'exception:' + tb_signature(r['exc'][1])}"
+                chk.reject(sig, f'the implementation raised {cls} while handling an operation', dict(base, traceback=r['exc'][1][-1500:], lines=r['lines'][-15:]))
+            if r['diff']:
+                chk.disagree('Cmd', dict(base, **r['diff'], prefix=r['lines'][max(0, r['diff']['line'] - 12):r['diff']['line'] + 1]))
+            seen = set()
+            for k, v, op in r['verdicts']:
+                tag = v.split(':')[0]
+                if not any(tag.startswith(p) for p in prefixes) or tag in seen: continue
+                seen.add(tag)
+                sig = f"{prop}:{tag.split('-', 1)[1]}"
+                chk.reject(sig, f'{v} at operation {k} ({op})',
+                           dict(base, verdict=v, operation_index=k, configuration=[l for l in r['lines'] if not l.startswith('op')],
+                                operations=[f'{l}  ->  {o}' for l, o in zip(r['lines'][:k + 1], r['obs'][:k + 1]) if l.startswith('op') and ' info ' not in l][-25:]))
+
+    corpus = []
+    d = os.path.join(os.path.dirname(os.path.dirname(os.path.abspath(__file__))), 'corpus', prop)
+    if os.path.isdir(d):
+        for f in sorted(os.listdir(d)):
+            if f.endswith('.json'): corpus.append(json.load(open(os.path.join(d, f)))['case_seed'])
+    if corpus: batch(corpus)
+    seeds = derive_seeds(chk.seed, n)
+    for k in range(0, len(seeds), 1000): batch(seeds[k:k + 1000])
+    if not chk.obligations_ok() or chk.disagreements:
+        more = derive_seeds(chk.seed + 15485863, search_cases)
+        for k in range(0, len(more), 1000): batch(more[k:k + 1000])
+    chk.coverage.update({
+        'evaluations': stats['evaluations'], 'distinct_nontrivial': len(stats['nontrivial']),
+        'rule': 'generated application configurations (1-3 applications x 1-4 processes, sequences, required, wait_exit, loads, strategies, '
+                'identifiers rules, 1-4 instances on 1-4 nodes, programs unknown / disabled on some instances) driven by start / stop / '
+                'restart requests, ticks, periodic checks and process events (incl. events Supervisor would not produce); non-trivial = '
+                + rule_text + '; distinct = distinct case seed',
+        'samples': samples, 'recorded_lines': stats['lines'], 'operation_kinds': stats['ops'], 'requests_emitted': stats['emitted'],
+        'implementation_exceptions': stats['impl_exceptions'], 'cases_ended_by_a_dropped_job': stats['orphan_cases'],
+        'traces_validated_against_impl': stats['evaluations'], 'exhaustive': False})
+    chk.trusted += ['harness/cmdh.py + harness/simenv.py (real Starter / Stopper / strategies / Context / ProcessStatus of one instance; recording '
+                    'sinks on send_start_process / send_stop_process / force_process_state; generated events)',
+                    'lean/Supv/Drv/Cmd.lean (op-line parser, observation printer, monitor calling Supv.Spec.Cmd)',
+                    'modelled, not verified: Python object identity of job objects reduced to creation ranks; instances of a node given as a '
+                    'function instance -> node; the monitor attributes requests to application starts through the rank recorded by the harness']
+    chk.assumptions += ['the ordering / eligibility clauses over whole executions are judged on the implementation by the Lean monitor (search) and '
+                        'carried by the lock-step correspondence; the theorems are about the decision functions the commander runs',
+                        'a case ends when the implementation drops a job object that goes on sending requests (known finding C10:start-request-untracked)']
+
+
+def commander_replay(chk, path, prefixes):
+    c = json.load(open(path)); r0 = c.get('replay', c)
+    for r in run_cases(chk, [r0['case_seed']]):
+        if r['diff']: chk.disagree('Cmd', r['diff'])
+        for k, v, op in r['verdicts']:
+            tag = v.split(':')[0]
+            if any(tag.startswith(p) for p in prefixes):
+                chk.reject(f"{chk.prop}:{tag.split('-', 1)[1]}", f'{v} at operation {k} ({op})', {'case_seed': r['seed']})
+    chk.coverage.update({'evaluations': 1, 'distinct_nontrivial': 0, 'rule': 'replay of one case', 'samples': [r0['case_seed']]})
